@@ -20,7 +20,7 @@ BUILTIN = {
     'std::uint8_t': 'unsigned char', 'uint8_t': 'unsigned char',
 }
 
-SCALAR_C = set(BUILTIN.values()) | {'c_enum'}
+SCALAR_C = set(BUILTIN.values()) | {'c_enum', 'c_tabid', 'c_opaque', 'c_strid'}
 
 
 def strip_cv(s):
@@ -110,6 +110,9 @@ class TypeMap:
 
     def c(self, s):
         s = s.strip()
+        for rx, ct in self.overrides:
+            if rx.fullmatch(s) or rx.fullmatch(strip_cv(s)):
+                return ct
         # pointer / reference suffix
         if s.endswith('&&'):
             return self.c(s[:-2]) + ' *'
